@@ -7,7 +7,7 @@ static mut LAST_VAL_LEN: [usize; 2] = [usize::MAX; 2];
 fn cb0(e: KeyChangeEvent) { unsafe { CALLS[0] += 1; LAST_KEY_LEN[0] = e.key.len(); LAST_VAL_LEN[0] = e.value.len(); } }
 fn cb1(e: KeyChangeEvent) { unsafe { CALLS[1] += 1; LAST_KEY_LEN[1] = e.key.len(); LAST_VAL_LEN[1] = e.value.len(); } }
 
-const PREFIXES: [&str; 5] = ["", "a", "\u{e9}", "a\u{e9}", "\u{1F600}"];   // '', a, é, aé, 😀
+const PREFIXES: [&str; 6] = ["", "a", "\u{e9}", "a\u{e9}", "\u{1F600}", "aaaa"];   // '', a, é, aé, 😀, and a long decoy that sorts inside the scanned range of keys starting with a
 const SYMS: [&str; 3] = ["a", "\u{e9}", "\u{1F600}"];                       // 1-, 2- and 4-byte characters
 fn lid() -> ChitchatId { ChitchatId::new("x".to_string(), 0, ([127, 0, 0, 1], 1).into()) }
 
@@ -29,7 +29,8 @@ fn ref_match(p: usize, n: usize, syms: &[usize; 2]) -> Option<usize> {
         1 => if n >= 1 && syms[0] == 0 { Some(klen - 1) } else { None },
         2 => if n >= 1 && syms[0] == 1 { Some(klen - 2) } else { None },
         3 => if n >= 2 && syms[0] == 0 && syms[1] == 1 { Some(klen - 3) } else { None },
-        _ => if n >= 1 && syms[0] == 2 { Some(klen - 4) } else { None },
+        4 => if n >= 1 && syms[0] == 2 { Some(klen - 4) } else { None },
+        _ => None,   // "aaaa" is longer than any key of two symbols that starts with "aa"... and never a prefix of a <=2-symbol key
     }
 }
 
